@@ -96,6 +96,69 @@ func c10Gen(tier string, rng *rand.Rand, emit func(string)) map[string]interface
 		out("sampled", "seq: "+strings.Join(toks, " ; ")+tail)
 	}
 
+	// (1b) zero-value Subscriptions (OnNext nil) at every position among ordinary ones (scripts of <= 1 action):
+	// one or two of them among 1..3 ordinary subscriptions; also before / after a Map call and with SubscribeOn
+	var recZ func(n, k int, toks []string)
+	recZ = func(n, k int, toks []string) {
+		if k == n {
+			for i := 0; i <= len(toks); i++ {
+				one := append(append(append([]string{}, toks[:i]...), "z"), toks[i:]...)
+				out("nil", "seq: "+strings.Join(one, " ; ")+tail)
+				if n <= 2 {
+					for j := i + 1; j <= len(one); j++ {
+						two := append(append(append([]string{}, one[:j]...), "z"), one[j:]...)
+						out("nil", "seq: "+strings.Join(two, " ; ")+tail)
+					}
+				}
+			}
+			return
+		}
+		for _, s := range scripts1 {
+			recZ(n, k+1, append(append([]string{}, toks...), c10SubTok(s)))
+		}
+	}
+	for n := 0; n <= 3; n++ {
+		recZ(n, 0, nil)
+	}
+	for _, f := range []string{"a", "z"} {
+		for _, pre := range [][]string{{"z"}, {"s", "z"}, {"z", "s"}, {"z", "z"}} {
+			for _, post := range [][]string{{}, {"z"}, {"s", "z"}} {
+				for _, der := range [][]string{{"s@1"}, {"z@1", "s@1"}, {"s@1", "z@1", "s@1:u-1"}} {
+					toks := append([]string{}, pre...)
+					toks = append(toks, "m:"+f)
+					toks = append(toks, post...)
+					toks = append(toks, der...)
+					toks = append(toks, "p:0", "p:4", "m@1:d", "z@2", "s@2", "p:-2", "c", "c@1")
+					out("nil", "seq: "+strings.Join(toks, " ; "))
+				}
+			}
+		}
+	}
+	for _, lay := range [][]string{{"z", "s"}, {"s", "z", "s"}, {"s", "s:u0", "z"}, {"z", "z", "s:n"}, {"s:u+1", "z", "s"}} {
+		for hAt := 0; hAt <= len(lay); hAt++ {
+			toks := append(append(append([]string{}, lay[:hAt]...), "h"), lay[hAt:]...)
+			toks = append(toks, "p:1", "z", "s", "p:2", "c")
+			out("nil", "seq: "+strings.Join(toks, " ; "))
+		}
+	}
+	// parked Publish with zero-value Subscriptions in the snapshot, another goroutine adds / removes them
+	for _, lay := range [][]string{{"z", "s"}, {"s", "z", "s"}, {"s", "z"}} {
+		for pos := 0; pos <= len(lay)+1; pos++ {
+			for _, op := range []string{"z", "u:1", "u:2", "s"} {
+				toks := append([]string{}, lay...)
+				toks = append(toks, "go1:1")
+				for k := 0; k <= len(lay)+1; k++ {
+					if k == pos {
+						toks = append(toks, op)
+					}
+					toks = append(toks, "adv1")
+				}
+				toks = append(toks, "fin1", "p:2", "c")
+				out("nil", "sched: "+strings.Join(toks, " ; "))
+			}
+		}
+	}
+
 	// (2) random longer histories on one publisher
 	nRandom := 1500
 	if thorough {
@@ -115,8 +178,11 @@ func c10Gen(tier string, rng *rand.Rand, emit func(string)) map[string]interface
 				}
 				toks = append(toks, c10SubTok(s))
 				subs++
-			case r < 55:
+			case r < 50:
 				toks = append(toks, "u:"+strconv.Itoa(1+rng.Intn(subs+2)))
+			case r < 57 && subs < 9:
+				toks = append(toks, "z")
+				subs++
 			case r < 90:
 				v++
 				toks = append(toks, "p:"+strconv.Itoa(v))
@@ -160,8 +226,11 @@ func c10Gen(tier string, rng *rand.Rand, emit func(string)) map[string]interface
 				toks = append(toks, fmt.Sprintf("m@%d:%s", q, fns[rng.Intn(len(fns))]))
 				subsOn[q]++
 				npub++
-			case r < 45:
+			case r < 40:
 				toks = append(toks, strings.Replace(c10SubTok(c10RandScript(rng, 2, false)), "s", "s@"+strconv.Itoa(q), 1))
+				subsOn[q]++
+			case r < 47:
+				toks = append(toks, fmt.Sprintf("z@%d", q))
 				subsOn[q]++
 			case r < 55:
 				toks = append(toks, fmt.Sprintf("u@%d:%d", q, 1+rng.Intn(subsOn[q]+1)))
@@ -207,8 +276,11 @@ func c10Gen(tier string, rng *rand.Rand, emit func(string)) map[string]interface
 			}
 			r := rng.Intn(100)
 			switch {
-			case r < 40:
+			case r < 34:
 				toks = append(toks, strings.Replace(c10SubTok(c10RandScript(rng, 2, false)), "s", "s@"+strconv.Itoa(q), 1))
+				nsub[q]++
+			case r < 40:
+				toks = append(toks, fmt.Sprintf("z@%d", q))
 				nsub[q]++
 			case r < 52:
 				toks = append(toks, fmt.Sprintf("u@%d:%d", q, 1+rng.Intn(nsub[q]+1)))
@@ -301,8 +373,11 @@ func c10Gen(tier string, rng *rand.Rand, emit func(string)) map[string]interface
 				live[t] = true
 			case r < 60:
 				toks = append(toks, fmt.Sprintf("adv%d", t))
-			case r < 72:
+			case r < 67:
 				toks = append(toks, c10SubTok(c10RandScript(rng, 2, false)))
+				subs++
+			case r < 72:
+				toks = append(toks, "z")
 				subs++
 			case r < 86:
 				toks = append(toks, "u:"+strconv.Itoa(1+rng.Intn(subs+1)))
@@ -324,8 +399,8 @@ func c10Gen(tier string, rng *rand.Rand, emit func(string)) map[string]interface
 		nStress, N = 60, 400
 	}
 	for i := 0; i < nStress; i++ {
-		out("stress", fmt.Sprintf("stress: pubs=%d stable=%d churn=%d n=%d handler=%d map=%d seed=%d",
-			1+rng.Intn(4), 1+rng.Intn(4), 1+rng.Intn(3), N, i%3/2, (i/3)%3, rng.Intn(1<<30)))
+		out("stress", fmt.Sprintf("stress: pubs=%d stable=%d churn=%d n=%d handler=%d map=%d nil=%d seed=%d",
+			1+rng.Intn(4), 1+rng.Intn(4), 1+rng.Intn(3), N, i%3/2, (i/3)%3, i%2, rng.Intn(1<<30)))
 	}
 
 	res := map[string]interface{}{
